@@ -259,73 +259,50 @@ func (l *orderColumnsRow) compareBool(lval, rval Column, reverse bool) int {
 	}
 }
 
-func (l *orderColumnsRow) compareNumber(lval, rval Column, reverse bool) int {
-	var (
-		lint, rint     int64
-		lfloat, rfloat float64
-		err            error
-		isFloat        bool = false
-	)
-	switch lval.(type) {
+// orderNumber converts a column value to a number: an integer (isFloat false)
+// or a float; ok is false if the value is not a number.
+func orderNumber(val Column) (ival int64, fval float64, isFloat bool, ok bool) {
+	switch v := val.(type) {
 	case int:
-		lint = int64(lval.(int))
-		rint = int64(rval.(int))
+		return int64(v), float64(v), false, true
 	case int16:
-		lint = int64(lval.(int16))
-		rint = int64(rval.(int16))
+		return int64(v), float64(v), false, true
 	case int32:
-		lint = int64(lval.(int32))
-		rint = int64(rval.(int32))
+		return int64(v), float64(v), false, true
 	case int64:
-		lint = lval.(int64)
-		rint = rval.(int64)
+		return v, float64(v), false, true
 	case uint:
-		lint = int64(lval.(uint))
-		rint = int64(rval.(uint))
+		return int64(v), float64(v), false, true
 	case uint16:
-		lint = int64(lval.(uint16))
-		rint = int64(rval.(uint16))
+		return int64(v), float64(v), false, true
 	case uint32:
-		lint = int64(lval.(uint32))
-		rint = int64(rval.(uint32))
+		return int64(v), float64(v), false, true
 	case uint64:
-		lint = int64(lval.(uint64))
-		rint = int64(rval.(uint64))
+		return int64(v), float64(v), false, true
 	case float32:
-		lfloat = float64(lval.(float32))
-		rfloat = float64(rval.(float32))
-		isFloat = true
+		return 0, float64(v), true, true
 	case float64:
-		lfloat = lval.(float64)
-		rfloat = rval.(float64)
-		isFloat = true
+		return 0, v, true, true
 	case []byte:
-		if lint, err = strconv.ParseInt(string(lval.([]byte)), 10, 64); err == nil {
-			if rint, err = strconv.ParseInt(string(rval.([]byte)), 10, 64); err == nil {
-				return l.compareInt(lint, rint, reverse)
-			}
-		}
-		if lfloat, err = strconv.ParseFloat(string(lval.([]byte)), 64); err == nil {
-			if rfloat, err = strconv.ParseFloat(string(rval.([]byte)), 64); err == nil {
-				return l.compareFloat(lfloat, rfloat, reverse)
-			}
-		}
-		return 0
+		return orderNumber(string(v))
 	case string:
-		if lint, err = strconv.ParseInt(lval.(string), 10, 64); err == nil {
-			if rint, err = strconv.ParseInt(rval.(string), 10, 64); err == nil {
-				return l.compareInt(lint, rint, reverse)
-			}
+		if ival, err := strconv.ParseInt(v, 10, 64); err == nil {
+			return ival, float64(ival), false, true
 		}
-		if lfloat, err = strconv.ParseFloat(lval.(string), 64); err == nil {
-			if rfloat, err = strconv.ParseFloat(rval.(string), 64); err == nil {
-				return l.compareFloat(lfloat, rfloat, reverse)
-			}
+		if fval, err := strconv.ParseFloat(v, 64); err == nil {
+			return 0, fval, true, true
 		}
+	}
+	return 0, 0, false, false
+}
+
+func (l *orderColumnsRow) compareNumber(lval, rval Column, reverse bool) int {
+	lint, lfloat, lIsFloat, lok := orderNumber(lval)
+	rint, rfloat, rIsFloat, rok := orderNumber(rval)
+	if !lok || !rok {
 		return 0
 	}
-
-	if isFloat {
+	if lIsFloat || rIsFloat {
 		return l.compareFloat(lfloat, rfloat, reverse)
 	}
 	return l.compareInt(lint, rint, reverse)
